@@ -50,7 +50,7 @@ static struct evhttp *http;
 static struct evrpc_base *rbase;
 static struct evrpc_pool *pool;
 static struct evhttp_connection *rawcon;
-static int port, hooks_on, rawh, rawcode, tearing;
+static int port, hooks_on, rawh, rawcode, tearing, deadfd = -1;
 static FILE *out;
 static char donelog[8192];
 static size_t donelen;
@@ -278,13 +278,13 @@ static int exec_op(jval *op, jval *cfg)
 		EVRPC_REGISTER(rbase, NeverReply, msg, kill, NeverReplyCb, NULL);
 		evhttp_set_cb(http, "/.rpc.Junk", junk_cb, NULL);
 		cport = port;
-		if (m & 2) {   /* a port nobody listens on */
+		if (m & 2) {   /* a port nobody listens on: bound but not listening => connection refused */
 			int s = socket(AF_INET, SOCK_STREAM, 0);
 			memset(&sin, 0, sizeof sin); sin.sin_family = AF_INET; sin.sin_addr.s_addr = htonl(INADDR_LOOPBACK);
 			bind(s, (struct sockaddr *)&sin, sizeof sin);
 			sl = sizeof sin; getsockname(s, (struct sockaddr *)&sin, &sl);
 			cport = ntohs(sin.sin_port);
-			close(s);
+			deadfd = s;   /* stays bound (never listening) until teardown so that nobody else can get the port */
 		}
 		pool = evrpc_pool_new(base);
 		evcon = evhttp_connection_base_new(NULL, NULL, "127.0.0.1", cport);   /* the pool supplies the base */
@@ -423,6 +423,7 @@ static void run_scenario(jval *sc)
 		evhttp_free(http);
 	}
 	event_base_free(base);
+	if (deadfd >= 0) { close(deadfd); deadfd = -1; }
 	for (k = 1; k <= MAXCALL; k++) {
 		if (calls[k].req) msg_free(calls[k].req);
 		if (calls[k].rep) kill_free(calls[k].rep);
